@@ -56,7 +56,6 @@ def _shard_values(kind, a, b, drawn):
                     break
         n = b - a
         # non-trivial: bit 11 set (carry into the upper part) or upper part on a wrap edge
-        nt = sum(1 for _ in range(0))  # counted arithmetically below
         lo_a, lo_b = a, b
         # count of v in [a,b) with bit 11 set: exact arithmetic
         def cnt(x):  # number of v in [0,x) with bit 11 set (x may be negative: use floor semantics)
@@ -120,6 +119,9 @@ def run(tier):
     # (b) text front end
     from checks import c07_pairs
     c07_pairs.run_into(chk, tier)
+    c = chk.res.classes
+    if c.get('refused_other', 0) * 4 > c.get('pairs', 0) + 4:
+        raise env.HarnessError('pair generator vacuity: %r' % c)
     chk.assumptions = ['rvref (own RV32 decoder/executor) is the judge of what a lui/auipc pair computes',
                        'values outside [-2^31, 2^32) are not 32-bit values and are not generated']
     return chk.finish()
